@@ -4,8 +4,10 @@ cartposlos2geocentric(*geocentricposlos2cart(r, lat, lon, za, aa)) must give
 back r (1 cm), lat, lon (1e-7 deg) and za, aa (1e-6 deg); the cartesian
 position in between must be the closed-form one (1 cm). Lattice: radii x
 latitudes x longitudes of the tier x zenith x azimuth angles, none singular
-(zenith/nadir, poles and the meridian directions aa = 0, 180 are excluded by
-the statement); called with scalars, as one 1-D array, as one 5-D array, as
+(zenith/nadir and poles are excluded by the statement; lines of sight exactly
+in the meridian plane, aa = 0 and 180, are regular directions but
+ill-conditioned in typhon's arccos formulation and are checked in a part of
+their own with a conditioning-based azimuth tolerance); called with scalars, as one 1-D array, as one 5-D array, as
 five broadcastable axes and as scalars with a vector of azimuths.
 """
 import itertools
@@ -30,6 +32,8 @@ ANGLES = {      # tier -> (zenith angles, azimuth angles)
 }
 NAMES = ("r", "lat", "lon", "za", "aa")
 UNITS = ("m", "deg", "deg", "los", "los")
+UNITS_MERIDIAN = ("m", "deg", "deg", "los", "los-meridian")
+MERIDIAN_AZIMUTHS = [0.0, 180.0]
 
 
 def axes(tier):
@@ -42,6 +46,7 @@ def shards(tier, seed):
            for j in range(len(lats))]
     out += [("poslos", tier, shape, None, None)
             for shape in ("flat", "grid", "axes", "aa-vector")]
+    out += [("poslos", tier, "meridian", i, None) for i in range(len(RADII))]
     return out
 
 
@@ -54,6 +59,13 @@ def blocks(tier, shape, i, j):
             _, lat, lon, za, aa = point
             yield k, point, (abs(lat) > 1e-6 and lon != 0 and za != 90
                              and abs(aa) != 90)
+    elif shape == "meridian":
+        # due north / due south, scalar calls and one array call per radius
+        pts = list(itertools.product([radii[i]], lats, lons, zeniths,
+                                     MERIDIAN_AZIMUTHS))
+        for k, point in enumerate(pts):
+            yield k, point, True
+        yield len(pts), tuple(np.array(c) for c in zip(*pts)), True
     elif shape == "aa-vector":
         for k, point in enumerate(itertools.product(
                 radii, lats, lons, zeniths)):
@@ -79,7 +91,7 @@ def call(fname, args):
                       "arguments of %d dimensions" % np.broadcast(*args).ndim)
 
 
-def check(args):
+def check(args, units=UNITS):
     """List of violations (key, expected, observed, msg) of one block."""
     shape = np.broadcast(*args).shape
     bad = []
@@ -103,7 +115,7 @@ def check(args):
     if exc:
         return bad + [exc]
     expected = np.broadcast_arrays(*[ref.ld(a) for a in args])
-    back_bad = compare(back, expected, NAMES, UNITS, shape,
+    back_bad = compare(back, expected, NAMES, units, shape,
                        "poslos-roundtrip")
     return bad + ([back_bad] if back_bad else [])
 
@@ -115,8 +127,9 @@ def run_shard(shard):
         res.case(nontrivial=nontrivial)
         res.count("poslos_point_comparisons",
                   int(np.prod(np.broadcast(*args).shape, dtype=int)))
-        found = check(args)
-        if found and not same(check(args), found):
+        units = UNITS_MERIDIAN if shape == "meridian" else UNITS
+        found = check(args, units)
+        if found and not same(check(args, units), found):
             res.error("NONDETERMINISM in poslos %r" % (shard,))
         for bad in found:
             res.violation(bad[0], dict(part="poslos", lattice=tier,
@@ -131,6 +144,7 @@ def replay(case):
     for label, args, _ in blocks(case["lattice"], case["shape"], case["i"],
                                  case["j"]):
         if label == case["block"]:
-            return next((bad for bad in check(args)
+            units = UNITS_MERIDIAN if case["shape"] == "meridian" else UNITS
+            return next((bad for bad in check(args, units)
                          if bad[0] == case["check"]), None)
     raise KeyError(case["block"])
